@@ -693,7 +693,7 @@ func (c *Ctx) c12Wiring(b BK) {
 			continue
 		}
 		// the metric closure loads the right field atomically
-		ok := false
+		loads, other := false, false
 		ast.Inspect(fd.Body, func(n ast.Node) bool {
 			lit, isLit := n.(*ast.FuncLit)
 			if !isLit {
@@ -702,19 +702,21 @@ func (c *Ctx) c12Wiring(b BK) {
 			ast.Inspect(lit.Body, func(m ast.Node) bool {
 				if u, isU := m.(*ast.UnaryExpr); isU && u.Op == token.AND {
 					if sel, isSel := u.X.(*ast.SelectorExpr); isSel && sel.Sel.Name == w.field {
-						ok = true
+						loads = true
 					}
 				}
+				// the rank is a function of that field alone: a closure that also looks at another field of the entry (expired entries
+				// first, …) ranks some entries by something else
 				if sel, isSel := m.(*ast.SelectorExpr); isSel && sel.Sel.Name != w.field {
 					if s := c.Pkg.TypesInfo.Selections[sel]; s != nil && s.Kind() == types.FieldVal && strings.HasPrefix(namedTypeName(s.Recv()), "TraitEntry") {
-						ok = false
+						other = true
 					}
 				}
 				return true
 			})
 			return false
 		})
-		if ok {
+		if loads && !other {
 			r.OK("R12.3", name, "ranks by entry."+w.field)
 		} else {
 			r.Bad("R12.3", name, "metric-field", c.Pos(fd.Pos()), name+" must rank entries by their "+w.field+" field", nil)
